@@ -432,7 +432,9 @@ func main() {
 		if err := run.ReadReplay(&jc); err != nil {
 			panic(err)
 		}
-		if jc.Kind == "real" {
+		if jc.Kind == "realbig" {
+			doRealBig(run, jc.Size/boson.ChunkSize, jc.Size%boson.ChunkSize, jc.DSeed)
+		} else if jc.Kind == "real" {
 			doReal(jc)
 		} else {
 			doToy(jc)
@@ -527,7 +529,87 @@ func main() {
 		}
 		doReal(jc)
 	}
+	// ---- thorough only: a three-level tree at the real constants: 8192 full chunks + a few bytes
+	// (root = node(full node of 8192 leaves, carried leaf)), streamed; hashing-only Putter
+	if run.Thorough() {
+		doRealBig(run, boson.Branches, 1+r.Intn(1000), r.U64())
+	}
 	run.Finish()
+}
+
+// doRealBig streams nChunks full chunks plus extra bytes through the real pipeline and compares the
+// root with the format specification computed from independently hashed leaves.
+func doRealBig(run *hx.Run, nChunks, extra int, seed uint64) {
+	C := boson.ChunkSize
+	put := &recPutter{keep: false}
+	p := builder.NewPipelineBuilder(ctx, put, storage.ModePutUpload, false)
+	var refs [][]byte
+	var lens []int
+	rr := hx.NewRand(seed)
+	var err error
+	total := 0
+	panicked, msg := hx.Guard(func() {
+		for i := 0; i <= nChunks; i++ {
+			n := C
+			if i == nChunks {
+				n = extra
+			}
+			data := hx.NewRand(seed + uint64(i)*7919).Bytes(n)
+			refs = append(refs, refBMT(append(le64(uint64(n)), data...)))
+			lens = append(lens, n)
+			total += n
+			// two or three writes per chunk, not aligned with the chunk
+			off := 0
+			for off < n {
+				c := 1 + rr.Intn(n-off)
+				if _, err = p.Write(data[off : off+c]); err != nil {
+					return
+				}
+				off += c
+			}
+		}
+	})
+	jc := jcase{Kind: "realbig", CS: C, B: boson.Branches, RefLen: boson.HashSize, Size: total, DSeed: seed}
+	run.AddCase("", jc, fmt.Sprintf("realbig|%d|%d", total, seed), true)
+	run.Hist(fmt.Sprintf("real.chunks=%d", nChunks+1))
+	run.OracleChecked(1)
+	if panicked || err != nil {
+		run.Violate(hx.Violation{Sig: "real:error", Detail: fmt.Sprintf("pipeline failed: panic=%v %s err=%v", panicked, msg, err), Case: jc})
+		return
+	}
+	root, err := p.Sum()
+	if err != nil {
+		run.Violate(hx.Violation{Sig: "real:error", Detail: "Sum: " + err.Error(), Case: jc})
+		return
+	}
+	want := specFromLeaves(refs, lens, boson.Branches)
+	if !bytes.Equal(root, want) {
+		run.Violate(hx.Violation{Sig: "real:root!=format-spec", Detail: fmt.Sprintf("size %d: root %x, format specification %x", total, root, want), Case: jc, Impl: hx.Hex(root), Want: hx.Hex(want)})
+	}
+}
+
+// top-down format definition over already hashed leaves
+func specFromLeaves(refs [][]byte, lens []int, b int) []byte {
+	if len(refs) == 1 {
+		return refs[0]
+	}
+	n := 0
+	for _, l := range lens {
+		n += l
+	}
+	bc := 1
+	for bc*b < len(refs) {
+		bc *= b
+	}
+	payload := le64(uint64(n))
+	for i := 0; i < len(refs); i += bc {
+		j := i + bc
+		if j > len(refs) {
+			j = len(refs)
+		}
+		payload = append(payload, specFromLeaves(refs[i:j], lens[i:j], b)...)
+	}
+	return refBMT(payload)
 }
 
 // list N with one scope delimiter (short to parse)
